@@ -992,3 +992,7 @@ def bulk_changes_own_rows(ctx):
                 ctx.require(scoped, q, 'a bulk .%s() on %s selects its rows by `%s`: neither the wallet nor a primary key' % (x.terminal, models[0], txt[:80]), x.node,
                             'with two wallets of one database holding the same transaction, transaction_delete in one raises MultipleResultsFound or removes / resets the rows of the other wallet')
     ctx.floor(n, 4, 'bulk changes of wallet tables')
+
+
+from . import c09 as _c09
+PROP.obligation('C08.scope-forwarding')(_c09.scope_forwarding)
